@@ -5,7 +5,9 @@ import (
 	"go/constant"
 	"go/token"
 	"go/types"
+	"os"
 	"sort"
+	"strings"
 
 	"golang.org/x/tools/go/ssa"
 )
@@ -19,9 +21,8 @@ import (
 // by a comparison with '\n'). A RAW function must be in COUNT, or every caller of it must be in COUNT
 // (recursively): no function obtains bytes of the document on a path that bypasses the accounting.
 func c07Line(c *Ctx, r *Report) {
-	r.rule("C07.LINE", "every call path to the raw Read of parser.reader passes through a function that counts lines (parser.line incremented under b == '\\n'); who-may-call over the resolved call graph")
+	r.rule("C07.LINE", "every call path to the raw Read of parser.reader passes through a function that counts lines (parser.line incremented under b == '\\n', at once or through a flag that records the comparison for the next read); who-may-call over the resolved call graph")
 	raw := map[*ssa.Function]token.Pos{}
-	count := map[*ssa.Function]bool{}
 	for _, fn := range c.allFns {
 		for _, ci := range callsIn(fn) {
 			cm := ci.Common()
@@ -32,47 +33,11 @@ func c07Line(c *Ctx, r *Report) {
 				raw[fn] = ci.Pos()
 			}
 		}
-		for _, b := range fn.Blocks {
-			for _, in := range b.Instrs {
-				st, ok := in.(*ssa.Store)
-				if !ok {
-					continue
-				}
-				fa, ok := st.Addr.(*ssa.FieldAddr)
-				if !ok {
-					continue
-				}
-				if o, f := fieldOwner(fa.X.Type(), fa.Field); o != "parser" || f != "line" {
-					continue
-				}
-				bo, ok := st.Val.(*ssa.BinOp)
-				if !ok || bo.Op != token.ADD {
-					continue
-				}
-				if hasGuard(b, func(g guard) bool {
-					g = normGuard(g)
-					cmp, ok := g.cond.(*ssa.BinOp)
-					if !ok {
-						return false
-					}
-					isNL := func(v ssa.Value) bool {
-						k, ok := v.(*ssa.Const)
-						if !ok || k.Value == nil || k.Value.Kind() != constant.Int {
-							return false
-						}
-						n, _ := constant.Int64Val(k.Value)
-						bt, isB := k.Type().Underlying().(*types.Basic)
-						return n == 10 && isB && (bt.Kind() == types.Uint8 || bt.Kind() == types.Byte)
-					}
-					if !isNL(cmp.X) && !isNL(cmp.Y) {
-						return false
-					}
-					return (cmp.Op == token.EQL && g.val) || (cmp.Op == token.NEQ && !g.val)
-				}) {
-					count[fn] = true
-				}
-			}
-		}
+	}
+	acc := lineAccounting(c)
+	count := map[*ssa.Function]bool{}
+	for fn := range acc {
+		count[fn] = true
 	}
 	if len(raw) == 0 {
 		r.undecided("C07.LINE", "raw read of parser.reader", token.NoPos, "no call of Read on parser.reader found")
@@ -390,4 +355,390 @@ func isBytesBufferPtr(t types.Type) bool {
 	}
 	n, ok := p.Elem().(*types.Named)
 	return ok && n.Obj().Pkg() != nil && n.Obj().Pkg().Path() == "bytes" && n.Obj().Name() == "Buffer"
+}
+
+// isNLConst: the byte constant '\n'.
+func isNLConst(v ssa.Value) bool {
+	k, ok := v.(*ssa.Const)
+	if !ok || k.Value == nil || k.Value.Kind() != constant.Int {
+		return false
+	}
+	n, _ := constant.Int64Val(k.Value)
+	bt, isB := k.Type().Underlying().(*types.Basic)
+	return n == 10 && isB && (bt.Kind() == types.Uint8 || bt.Kind() == types.Byte)
+}
+
+// nlCompare: v is `b == '\n'` (eq true) or `b != '\n'` (eq false).
+func nlCompare(v ssa.Value) (eq bool, ok bool) {
+	cmp, isB := v.(*ssa.BinOp)
+	if !isB || (cmp.Op != token.EQL && cmp.Op != token.NEQ) {
+		return false, false
+	}
+	if !isNLConst(cmp.X) && !isNLConst(cmp.Y) {
+		return false, false
+	}
+	return cmp.Op == token.EQL, true
+}
+
+// lineAcc describes how one function advances parser.line.
+type lineAcc struct {
+	at       token.Pos
+	deferred bool   // the advance is controlled by a flag that an earlier read set, not by the byte just read
+	flag     string // the flag field, when deferred
+	eager    []eagerAdvance
+}
+
+// eagerAdvance: parser.line is incremented under `b == K` for the byte b that the same read returns.
+type eagerAdvance struct {
+	at token.Pos
+	k  int64
+}
+
+// byteConstCompare: v is `b == K` / `b != K` for a byte-typed b and a constant K.
+func byteConstCompare(v ssa.Value) (k int64, eq bool, ok bool) {
+	cmp, isB := v.(*ssa.BinOp)
+	if !isB || (cmp.Op != token.EQL && cmp.Op != token.NEQ) {
+		return 0, false, false
+	}
+	x, y := cmp.X, cmp.Y
+	if _, isC := x.(*ssa.Const); isC {
+		x, y = y, x
+	}
+	c, isC := y.(*ssa.Const)
+	if !isC || c.Value == nil || c.Value.Kind() != constant.Int {
+		return 0, false, false
+	}
+	if bt, isBt := x.Type().Underlying().(*types.Basic); !isBt || bt.Kind() != types.Uint8 {
+		return 0, false, false
+	}
+	if _, _, _, isFld := loadOfField(x); isFld {
+		return 0, false, false // scanner state (the lookahead slot), not the byte this read returns
+	}
+	n, _ := constant.Int64Val(c.Value)
+	return n, cmp.Op == token.EQL, true
+}
+
+// lineAccounting finds the functions that hold the newline accounting: an increment of parser.line that is
+// guarded by a comparison of a byte with '\n' (the advance happens in the read that returns the newline),
+// or guarded by a bool field of the parser whose every non-constant store in the package is such a
+// comparison (the advance happens in the read after the newline).
+func lineAccounting(c *Ctx) map[*ssa.Function]lineAcc {
+	// bool fields of the parser that record "the byte just read is a newline"
+	type flagInfo struct {
+		cmpIn map[*ssa.Function]bool
+		other bool
+	}
+	flags := map[string]*flagInfo{}
+	for _, fn := range c.allFns {
+		for _, b := range fn.Blocks {
+			for _, in := range b.Instrs {
+				st, ok := in.(*ssa.Store)
+				if !ok {
+					continue
+				}
+				fa, ok := st.Addr.(*ssa.FieldAddr)
+				if !ok {
+					continue
+				}
+				o, f := fieldOwner(fa.X.Type(), fa.Field)
+				if o != "parser" {
+					continue
+				}
+				if bt, isB := st.Val.Type().Underlying().(*types.Basic); !isB || bt.Kind() != types.Bool {
+					continue
+				}
+				fi := flags[f]
+				if fi == nil {
+					fi = &flagInfo{cmpIn: map[*ssa.Function]bool{}}
+					flags[f] = fi
+				}
+				if k, isC := st.Val.(*ssa.Const); isC {
+					// `if b == '\n' { p.flag = true }`: the same record, written as a branch
+					if k.Value != nil && k.Value.Kind() == constant.Bool && constant.BoolVal(k.Value) {
+						if hasGuard(b, func(g guard) bool {
+							eq, ok := nlCompare(g.cond)
+							return ok && eq == g.val
+						}) {
+							fi.cmpIn[fn] = true
+						} else {
+							fi.other = true
+						}
+					}
+					continue
+				}
+				if eq, ok := nlCompare(st.Val); ok && eq {
+					fi.cmpIn[fn] = true
+				} else {
+					fi.other = true
+				}
+			}
+		}
+	}
+	out := map[*ssa.Function]lineAcc{}
+	pending := map[*ssa.Function][]eagerAdvance{} // advances on other bytes seen before the function's newline accounting
+	for _, fn := range c.allFns {
+		for _, b := range fn.Blocks {
+			for _, in := range b.Instrs {
+				st, ok := in.(*ssa.Store)
+				if !ok {
+					continue
+				}
+				fa, ok := st.Addr.(*ssa.FieldAddr)
+				if !ok {
+					continue
+				}
+				if o, f := fieldOwner(fa.X.Type(), fa.Field); o != "parser" || f != "line" {
+					continue
+				}
+				bo, ok := st.Val.(*ssa.BinOp)
+				if !ok || bo.Op != token.ADD {
+					continue
+				}
+				for _, g := range blockGuards(b) {
+					g = normGuard(g)
+					if k, eq, ok := byteConstCompare(g.cond); ok && eq == g.val {
+						a := out[fn]
+						if k == 10 && !a.at.IsValid() {
+							a.at = st.Pos()
+						}
+						a.eager = append(a.eager, eagerAdvance{st.Pos(), k})
+						if k == 10 || a.at.IsValid() {
+							out[fn] = a
+						} else {
+							pending[fn] = append(pending[fn], eagerAdvance{st.Pos(), k})
+						}
+						continue
+					}
+					if _, o, f, ok := loadOfField(g.cond); ok && o == "parser" && g.val {
+						if fi := flags[f]; fi != nil && !fi.other && fi.cmpIn[fn] {
+							a := out[fn]
+							a.at, a.deferred, a.flag = st.Pos(), true, f
+							out[fn] = a
+						}
+					}
+				}
+			}
+		}
+	}
+	for fn, ea := range pending {
+		if a, ok := out[fn]; ok {
+			a.eager = append(a.eager, ea...)
+			out[fn] = a
+		}
+	}
+	return out
+}
+
+// C07.AHEAD: the scanners work with one byte of lookahead: a token ends when the byte after it has been
+// read, and that byte is then put back. Node positions are copied from parser.line / parser.col right
+// after such a token read. If the read that returns a newline also advances parser.line, a token that is
+// followed by a line break is reported on the next line (and with col - len(token) <= 0). The rule: when
+// some function copies parser.line after a call that can put a newline back, the accounting function
+// advances the line with the read after the newline (deferred form), not with the read that returns it.
+func c07Ahead(c *Ctx, r *Report) {
+	r.rule("C07.AHEAD", "where parser.line is read after a call that may leave a newline as the put-back lookahead byte, the line accounting advances parser.line with the read that follows the newline, not with the read that returns it")
+	acc := lineAccounting(c)
+	// functions that store a byte into parser.onDeck (putBack and the like)
+	putters := map[*ssa.Function]int{} // function -> index of the byte parameter stored
+	for _, fn := range c.allFns {
+		for _, b := range fn.Blocks {
+			for _, in := range b.Instrs {
+				st, ok := in.(*ssa.Store)
+				if !ok {
+					continue
+				}
+				fa, ok := st.Addr.(*ssa.FieldAddr)
+				if !ok {
+					continue
+				}
+				if o, f := fieldOwner(fa.X.Type(), fa.Field); o != "parser" || f != "onDeck" {
+					continue
+				}
+				if pa, ok := st.Val.(*ssa.Parameter); ok {
+					for i, q := range fn.Params {
+						if q == pa {
+							putters[fn] = i
+						}
+					}
+				}
+			}
+		}
+	}
+	// the bytes on which some read advances the line at once
+	ks := map[int64]bool{}
+	for _, a := range acc {
+		for _, e := range a.eager {
+			ks[e.k] = true
+		}
+	}
+	loadsLine := func(in ssa.Instruction) bool {
+		u, ok := in.(*ssa.UnOp)
+		if !ok {
+			return false
+		}
+		_, o, f, ok := loadOfField(u)
+		return ok && o == "parser" && f == "line"
+	}
+	fnLoadsLine := map[*ssa.Function]bool{}
+	for _, fn := range c.allFns {
+		for _, b := range fn.Blocks {
+			for _, in := range b.Instrs {
+				if loadsLine(in) {
+					fnLoadsLine[fn] = true
+				}
+			}
+		}
+	}
+	// sitesFor(k): functions that read parser.line after a call that may put byte k back
+	sitesFor := func(k int64) []string {
+		mayPut := map[*ssa.Function]bool{}
+		for _, fn := range c.allFns {
+			for _, ci := range callsIn(fn) {
+				cal := ci.Common().StaticCallee()
+				idx, ok := putters[cal]
+				if cal == nil || !ok || idx >= len(ci.Common().Args) {
+					continue
+				}
+				if !byteExcluded(ci.Block(), ci.Common().Args[idx], k) {
+					mayPut[fn] = true
+				}
+			}
+		}
+		var sites []string
+		for _, fn := range c.allFns {
+			if isAccFn(acc, fn) {
+				continue // the accounting function itself
+			}
+			for _, ci := range callsIn(fn) {
+				cal := ci.Common().StaticCallee()
+				if cal == nil || !mayPut[cal] {
+					continue
+				}
+				found := false
+				for _, b := range fn.Blocks {
+					for _, in := range b.Instrs {
+						if found {
+							break
+						}
+						if loadsLine(in) && instrReaches(ci, in) {
+							found = true
+						}
+						if c2, ok := in.(ssa.CallInstruction); ok && instrReaches(ci, in) {
+							if h := c2.Common().StaticCallee(); h != nil && fnLoadsLine[h] && !isAccFn(acc, h) && !mayPut[h] {
+								found = true
+							}
+						}
+					}
+				}
+				if found {
+					sites = append(sites, fmt.Sprintf("%s after %s", fnName(fn), cal.Name()))
+					break
+				}
+			}
+		}
+		sort.Strings(sites)
+		return sites
+	}
+	nlSites := sitesFor(10)
+	for _, st := range nlSites {
+		r.check("C07.AHEAD", "position copy after a put-back lookahead: "+st, token.NoPos, true, "")
+	}
+	n := 0
+	for fn, a := range acc {
+		n++
+		r.fnSeen(fnName(fn))
+		key := fmt.Sprintf("%s: parser.line is advanced by the read after the line break", fnName(fn))
+		if len(a.eager) == 0 {
+			r.check("C07.AHEAD", key, a.at, a.deferred, "no advance of parser.line recognised")
+			continue
+		}
+		bad := false
+		for _, e := range a.eager {
+			sites := nlSites
+			if e.k != 10 {
+				sites = sitesFor(e.k)
+			}
+			if len(sites) == 0 {
+				continue
+			}
+			bad = true
+			r.check("C07.AHEAD", key, e.at, false,
+				fmt.Sprintf("the line is advanced by the read that returns the byte %#x, and %d functions copy parser.line after a token read whose put-back lookahead byte can be that byte (%s): a token followed by it is reported on the next line, with column = 1 - len(token)", e.k, len(sites), strings.Join(sites, "; ")))
+			break
+		}
+		if !bad {
+			r.check("C07.AHEAD", key+" (no position is copied after a put-back line break)", a.at, true, "")
+		}
+	}
+	r.floor("C07.AHEAD", "line accounting functions examined", n, 1)
+}
+
+func isAccFn(acc map[*ssa.Function]lineAcc, fn *ssa.Function) bool {
+	_, ok := acc[fn]
+	return ok
+}
+
+// newlineExcluded: the guards that hold in block b rule out that byte value v is '\n': a comparison of v
+// with a constant, or of <constant string>[v] with a constant, that is false for v == 10.
+func byteExcluded(b *ssa.BasicBlock, v ssa.Value, k int64) bool {
+	kv := k
+	tableAt := func(tab, idx ssa.Value) (int64, bool) {
+		k, ok := tab.(*ssa.Const)
+		if !ok || k.Value == nil || k.Value.Kind() != constant.String {
+			return 0, false
+		}
+		if cv, ok := idx.(*ssa.Convert); ok {
+			idx = cv.X
+		}
+		if idx != v {
+			return 0, false
+		}
+		if s := constant.StringVal(k.Value); int64(len(s)) > kv && kv >= 0 {
+			return int64(s[kv]), true
+		}
+		return 0, false
+	}
+	evalSide := func(x ssa.Value) (int64, bool) {
+		switch t := x.(type) {
+		case *ssa.Const:
+			if t.Value != nil && t.Value.Kind() == constant.Int {
+				n, ok := constant.Int64Val(t.Value)
+				return n, ok
+			}
+		case *ssa.Lookup:
+			return tableAt(t.X, t.Index)
+		case *ssa.Index:
+			return tableAt(t.X, t.Index)
+		default:
+			if x == v {
+				return kv, true
+			}
+		}
+		return 0, false
+	}
+	for _, g := range blockGuards(b) {
+		g = normGuard(g)
+		cmp, ok := g.cond.(*ssa.BinOp)
+		if !ok || (cmp.Op != token.EQL && cmp.Op != token.NEQ) {
+			continue
+		}
+		x, okx := evalSide(cmp.X)
+		y, oky := evalSide(cmp.Y)
+		if os.Getenv("AHEAD_DEBUG") != "" {
+			fmt.Fprintf(os.Stderr, "  guard %s=%v x=%d,%v y=%d,%v (%T %T)\n", g.cond, g.val, x, okx, y, oky, cmp.X, cmp.Y)
+		}
+		if !okx || !oky {
+			continue
+		}
+		if _, cx := cmp.X.(*ssa.Const); cx {
+			if _, cy := cmp.Y.(*ssa.Const); cy {
+				continue
+			}
+		}
+		holds := (x == y) == (cmp.Op == token.EQL)
+		if holds != g.val {
+			return true
+		}
+	}
+	return false
 }
